@@ -494,6 +494,44 @@ class Scripts:
             self.emit('irq')
             self.emit('#= resume %s%s' % (data if pending else '-', ' crc' if crcerr else ''))
 
+    def attach_fsk(self, n):
+        """C17 for a chip left in FSK/OOK reception: a packet is waiting in the FIFO (PayloadReady raised), the host
+        wakes up, creates a fresh handle, tells it what the chip runs (the only way: set_opmod) and handles the interrupt"""
+        r = self.rnd
+        for _ in range(n):
+            mod = r.choice([FSK, OOK])
+            self.begin('attach', 'resume-fsk mod=%x' % mod)
+            self.emit('env chiprand %d' % r.randint(1, 2**31))
+            self.emit('env chip f 0x3b 0')
+            self.emit('env chip f 0x3e 0')
+            self.emit('env chip f 0x3f 0')
+            self.emit('env chip l 0x12 0')
+            self.emit('create')
+            self.emit('rx_set_callback 1')
+            self.emit('set_opmod 0 %d' % mod)
+            self.emit('set_opmod 1 %d' % mod)
+            self.emit('write_register 0x3f 0x10')
+            self.emit('fsk_ook_set_crc 24')
+            self.emit('fsk_ook_set_address_filtering 0 17 255')
+            self.emit('fsk_ook_set_packet_format 0x80 255')
+            self.emit('set_opmod 5 %d' % mod)
+            plen = r.choice([1, 2, 17, 30, 50, r.randint(1, 60)])
+            payload = [r.randint(0, 255) for _ in range(plen)]
+            pending = r.random() < 0.85
+            if pending:
+                for b in [plen] + payload:
+                    self.emit('env rxbyte %d' % b)
+                self.emit('env rxend 1')
+            self.emit('dump')
+            self.emit('create')
+            self.emit('#= attach')
+            self.emit('dump')
+            self.emit('rx_set_callback 1')
+            self.emit('set_opmod 5 %d' % mod)
+            self.emit('#= resumeopmod 5')
+            self.emit('irq')
+            self.emit('#= resume %s' % (''.join('%02x' % b for b in payload) if pending else '-'))
+
     def lora_rx(self, n):
         r = self.rnd
         for _ in range(n):
@@ -878,8 +916,19 @@ class Scripts:
             self.emit('fsk_ook_set_crc %d' % crc)
             self.emit('fsk_ook_set_address_filtering %d 17 255' % filt)
             fixed_len = None
+            retained = r.random() < 0.25
             if variable:
-                self.emit('fsk_ook_set_packet_format 0x80 %d' % r.choice([255, 2047]))
+                vl = r.choice([255, 2047])
+                if retained:
+                    # an earlier session left the chip in the other packet format with the same length register;
+                    # the host restarted, the new handle configures what it needs
+                    self.emit('fsk_ook_set_packet_format 0 %d' % vl)
+                    self.emit('create')
+                    self.emit('rx_set_callback 1')
+                    self.emit('set_opmod 1 %d' % mod)
+                    self.emit('fsk_ook_set_crc %d' % crc)
+                    self.emit('fsk_ook_set_address_filtering %d 17 255' % filt)
+                self.emit('fsk_ook_set_packet_format 0x80 %d' % vl)
             else:
                 fixed_len = r.choice([1, 2, 30, 31, 32, 62, 63, 64, 65, 66, 93, 94, 95, 255, 256, 2047, r.randint(1, 2047), r.randint(1, 200)])
                 fixed_len = min(fixed_len, maxlen_fixed)
@@ -1098,6 +1147,38 @@ class Scripts:
                 self.emit('env loraflags %d' % r.choice([0x04, 0x05]))
                 self.emit('irq')
 
+    def oversize_fixed(self, n, cap):
+        """C08 (small packet buffers): fixed-length reception with a configured length above the buffer capacity
+        (the API accepts up to 2047 whatever the build, and the chip may have retained it); only the memory
+        monitors apply - the packet cannot be delivered"""
+        r = self.rnd
+        for _ in range(n):
+            mod = r.choice([FSK, OOK])
+            self.begin('oversize', 'mod=%x' % mod)
+            self.prologue(mod, rand_chip=r.random() < 0.5)
+            ln = min(2047, r.choice([cap + 1, cap + 29, cap + 30, cap + 31, cap + 45, cap + 100, 2 * cap + 7, 2047]))
+            self.emit('fsk_ook_set_crc %d' % r.choice([0x08, 0x18]))
+            self.emit('fsk_ook_set_address_filtering 0 17 255')
+            self.emit('fsk_ook_set_packet_format 0 %d' % ln)
+            if r.random() < 0.4:
+                self.emit('create')        # a fresh handle on the chip that keeps the length
+                self.emit('rx_set_callback 1')
+                self.emit('set_opmod 1 %d' % mod)
+                self.emit('fsk_ook_set_packet_format 0 %d' % ln)
+            self.emit('write_register 0x3f 0x10')
+            self.emit('set_opmod 5 %d' % mod)
+            sent = 0
+            while sent < ln:
+                k = min(ln - sent, r.choice([31, 33, 40, 60]))
+                for _ in range(k):
+                    self.emit('env rxbyte %d' % r.randint(0, 255))
+                sent += k
+                self.emit('irq')
+            self.emit('env rxend 1')
+            self.emit('irq')
+            self.emit('irq')
+            self.emit('dump')
+
     def stale_length(self, n, cap):
         """C08 (small packet buffers): a transmit refill with a length in the handle that does not
         belong to the frame in the buffer — left behind by a LoRa implicit-header configuration made
@@ -1178,6 +1259,22 @@ class Scripts:
                         self.emit('env rxbyte %d' % r.randint(0, 255))
                     self.emit('irq')
                     self.emit('set_opmod 1 %d' % mod)
+                if behaviour == 'leave' and r.random() < 0.3:
+                    # the frame is queued in standby and transmit mode is entered afterwards - as FSK or as OOK,
+                    # both run the same packet engine
+                    mod2 = r.choice([FSK, OOK])
+                    self.emit('set_opmod 1 %d' % mod)
+                    self.emit('write_register 0x3f 0x10')
+                    self.emit('oncb tx set_opmod 1 %d' % mod2)
+                    self.emit('#= fsktx_begin')
+                    self.emit(calls[0])
+                    self.emit('set_opmod 3 %d' % mod2)
+                    self.tx_schedule(len(frames[0]))
+                    self.emit('env chip f 0x3f 0')
+                    self.emit('#= fsktx_end 1 %s' % (''.join('%02x' % b for b in frames[0]) or '-'))
+                    self.emit('dump')
+                    mod = mod2
+                    continue
                 self.emit('write_register 0x3f 0x10')  # flush
                 self.emit('set_opmod 3 %d' % mod)
                 if behaviour == 'leave':
@@ -1368,6 +1465,7 @@ class Scripts:
                     cfg['fdev'] = fd
                 rxbw = r.choice([2600.0, 5000.0, 20000.0, 250000.0, self.pick_valid_float(2600.0, 250000.0)])
                 self.emit('fsk_ook_rx_set_bandwidth %d' % f32bits(rxbw))
+                self.emit('fsk_ook_rx_set_afc_bandwidth %d' % f32bits(r.choice([2600.0, 15625.0, 50000.0, 250000.0, self.pick_valid_float(2600.0, 250000.0)])))
                 fmt = r.choice([0x00, 0x80])
                 ln = r.choice([1, 255, 256, 1024, 1500, 2047, r.randint(1, 2047)]) if fmt == 0 else r.choice([255, 2047, r.randint(1, 255)])
                 self.emit('fsk_ook_set_packet_format %d %d' % (fmt, ln))
